@@ -28,7 +28,7 @@ def _polys(tier):
     for k in range(8 if tier == 'quick' else 64):
         w = r.choice(range(8, 65)); out.append((w, r.getrandbits(w) | (1 << (w - 1))))
     return [{'w': w, 'poly': p} for w, p in out]
-@obligation(P, 'crc_table/post', cls='B', cases=_polys, funcs=['crysp.crc.crc_table'], bound='11 named reflected polynomials of widths 8..64 plus seeded random ones (8 quick / 64 thorough); all 256 entries each',
+@obligation(P, 'crc_table/post', cls='B', native=True, cases=_polys, funcs=['crysp.crc.crc_table'], bound='11 named reflected polynomials of widths 8..64 plus seeded random ones (8 quick / 64 thorough); all 256 entries each',
             note='entry n == 8 bitwise division steps of n, for every n in 0..255')
 def _(c):
     w, poly = c.case('w'), c.case('poly')
@@ -36,7 +36,7 @@ def _(c):
     c.ensure('length', len(T) == 256)
     c.ensure('entries', all(T[n].ival == byte_step(0, n, poly, w) and T[n].size == w for n in range(256)))
 
-@obligation(P, 'crc_table/sequence', cls='B', bound='pairs of widths for one polynomial value, both orders, after the import-time 32-bit table', funcs=['crysp.crc.crc_table', 'crysp.crc.crc_back_table'],
+@obligation(P, 'crc_table/sequence', cls='B', native=True, bound='pairs of widths for one polynomial value, both orders, after the import-time 32-bit table', funcs=['crysp.crc.crc_table', 'crysp.crc.crc_back_table'],
             cases={'pair': ['8,12', '12,8', '32,40', '40,32', '16,64', '64,16']}, note='a table depends on (polynomial, width) only, not on tables built earlier in the process')
 def _(c):
     w1, w2 = (int(x) for x in c.case('pair').split(','))
